@@ -129,3 +129,46 @@ Theorem C12_shared_schedule_refuted :
     /\ res1 St (run St (step_shared St seedf draw) sched) <> Some (depth_of St seedf draw s1).
 Proof. exact shared_schedule_dependent. Qed.
 Print Assumptions C12_shared_schedule_refuted.
+
+(* ---- a dropped layer is not read (Model/DropIndep.v): arbitrary layers, arbitrary parameters *)
+From VQ Require Import Model.GroupCat Model.DropIndep Proofs.DropIndepProofs Glue.DropIndepGlue.
+
+Theorem C12_results_independent_of_dropped_layers :
+  forall (P St I L : Type) (run : P -> St -> St * I * L) (null_i : I) (null_l : L) (r : nat) (ps ps' : list P) (s : St),
+  Datatypes.length ps = Datatypes.length ps' -> firstn (S r) ps = firstn (S r) ps' ->
+  forward run null_i null_l r ps s = forward run null_i null_l r ps' s.
+Proof. exact (@DropIndepProofs.forward_independent_of_dropped_layers). Qed.
+Print Assumptions C12_results_independent_of_dropped_layers.
+
+Theorem C12_dropped_entries_are_null :
+  forall (P St I L : Type) (run : P -> St -> St * I * L) (null_i : I) (null_l : L) (r : nat) (ps : list P) (s : St) (k : nat),
+  (r < k < Datatypes.length ps)%nat ->
+  let '(_, is_, ls) := forward run null_i null_l r ps s in nth_error is_ k = Some null_i /\ nth_error ls k = Some null_l.
+Proof. exact (@DropIndepProofs.dropped_entries_are_null). Qed.
+Print Assumptions C12_dropped_entries_are_null.
+
+Theorem C12_one_entry_per_layer :
+  forall (P St I L : Type) (run : P -> St -> St * I * L) (null_i : I) (null_l : L) (r : nat) (ps : list P) (s : St),
+  let '(_, is_, ls) := forward run null_i null_l r ps s in
+  Datatypes.length is_ = Datatypes.length ps /\ Datatypes.length ls = Datatypes.length ps.
+Proof. exact (@DropIndepProofs.forward_lengths). Qed.
+Print Assumptions C12_one_entry_per_layer.
+
+Theorem C12_dropped_entry_computed_from_the_layer_refuted :
+  exists (run : nat -> nat -> nat * nat * nat) (leak : nat -> nat) (r : nat) (ps ps' : list nat) (s : nat),
+  Datatypes.length ps = Datatypes.length ps' /\ firstn (S r) ps = firstn (S r) ps' /\
+  forward_leaky run 0%nat leak r ps s <> forward_leaky run 0%nat leak r ps' s.
+Proof. exact (@DropIndepProofs.forward_leaky_refuted). Qed.
+Print Assumptions C12_dropped_entry_computed_from_the_layer_refuted.
+
+Theorem C12_leaky_agrees_when_leak_is_null :
+  forall (P St I L : Type) (run : P -> St -> St * I * L) (null_i : I) (null_l : L) (leak : P -> L) (r : nat) (ps : list P) (s : St),
+  (forall p, In p ps -> leak p = null_l) -> forward_leaky run null_i leak r ps s = forward run null_i null_l r ps s.
+Proof. exact (@DropIndepProofs.forward_leaky_agrees_when_leak_is_null). Qed.
+Print Assumptions C12_leaky_agrees_when_leak_is_null.
+
+Theorem C12_tie_dropped_branches_read_nothing_of_the_layer :
+  (branch_pure "rvq" true o_dropped_branch.o_dropped_branch && branch_pure "rfsq" false o_dropped_branch.o_dropped_branch &&
+   branch_pure "rlfq" true o_dropped_branch.o_dropped_branch && branch_pure "rsvq" true o_dropped_branch.o_dropped_branch)%bool = true.
+Proof. exact (@DropIndepGlue.source_dropped_branches_pure). Qed.
+Print Assumptions C12_tie_dropped_branches_read_nothing_of_the_layer.
